@@ -96,9 +96,24 @@ func (c *MonitorConfig) names() []string {
 	res := make([]string, 0)
 
 	if c.NameSelector != nil {
-		res = c.NameSelector.MatchNames
+		// A name listed twice must not create two informers for the same object.
+		res = uniqueStrings(c.NameSelector.MatchNames)
 	}
 
+	return res
+}
+
+// uniqueStrings returns items without repetitions, the first occurrence keeps its place.
+func uniqueStrings(items []string) []string {
+	res := make([]string, 0, len(items))
+	seen := make(map[string]struct{}, len(items))
+	for _, item := range items {
+		if _, ok := seen[item]; ok {
+			continue
+		}
+		seen[item] = struct{}{}
+		res = append(res, item)
+	}
 	return res
 }
 
@@ -127,7 +142,8 @@ func (c *MonitorConfig) namespaces() []string {
 		return []string{""}
 	}
 
-	return c.NamespaceSelector.NameSelector.MatchNames
+	// A namespace listed twice must not create two sets of informers for the same objects.
+	return uniqueStrings(c.NamespaceSelector.NameSelector.MatchNames)
 }
 
 func (c *MonitorConfig) WithMode(mode kemtypes.KubeEventMode) {
